@@ -1,4 +1,4 @@
-import Nstd.Str.Model
+import Nstd.Str.Spec
 /-!
   The libc-style search / comparison functions of the model against declarative references.
 -/
@@ -496,15 +496,7 @@ theorem trim_range (p : Nat → Bool) (c : List Nat) :
 
 /-! ### split -/
 
-/-- reference: the pieces between separator chars (always at least one piece) -/
-def splitRef (seps : List Nat) : List Nat → List (List Nat)
-  | [] => [[]]
-  | x :: t =>
-    if seps.contains x then [] :: splitRef seps t
-    else
-      match splitRef seps t with
-      | tok :: rest => (x :: tok) :: rest
-      | [] => [[x]]
+open Spec (splitRef splitOut)
 
 theorem splitRef_ne_nil (seps : List Nat) : ∀ l, splitRef seps l ≠ []
   | [] => by simp [splitRef]
@@ -543,10 +535,6 @@ theorem splitRef_some {seps : List Nat} : ∀ {l : List Nat} {k : Nat}, strpbrkL
       obtain ⟨j, hj, rfl⟩ := e
       have ih := splitRef_some (seps := seps) (l := t) (k := j) hj
       simp only [splitRef, hx', Bool.false_eq_true, if_false, ih, List.take_succ_cons, List.drop_succ_cons]
-
-/-- what `split` delivers: all pieces, or the non-empty ones when `skipEmpty` -/
-def splitOut (skipEmpty : Bool) (pieces : List (List Nat)) : List (List Byte) :=
-  ((if skipEmpty then pieces.filter (fun t => !t.isEmpty) else pieces).map (·.map some))
 
 theorem subList_drop_take (c : List Byte) (p len : Nat) (h : p + len ≤ c.length) :
     subList c (p : Int) (len : Int) = (c.drop p).take len := by
